@@ -10,7 +10,8 @@ LEVEL = "model_checking"
 ANCHOR_PREFIXES = ["text::", "element::SvgElement::element_events", "transform::", "position::BoundingBox::locspec", "position::Length::calc_offset"]
 BOUNDS = ("carriers {text attribute, element content}; shapes {rect, circle, ellipse, line, point, box, standalone text}; text-loc in the 9 named locations and the 4 edges with 25% / symbolic offset; "
           "default / d-text-inside / d-text-outside; horizontal and d-text-vertical; 1-3 lines; symbolic shape geometry (k/2 in [-128,128], sizes k/2 in [0,64]), text-offset (k/2 in [-8,8]), "
-          "text-dx/dy/dxy (k/2 in [-16,16]), text-lsp (k/4 in [0.5,2])")
+          "text-dx/dy/dxy (k/2 in [-16,16]), text-lsp (k/4 in [0.5,2]); each of the 17 text presentation attributes and text-style on rect / line / text carriers, with and without d-text-vertical; "
+          "<text> elements positioned at a named location, an edge location or a |h|H|v|V direction of another element (implicit text-loc against the explicit spelling)")
 ASSUMPTIONS = ["anchor = text-loc location of the shape's box (default c); offset o = text-offset (default 1): inside top => y+o, bottom => y-o, left => x+o, right => x-o; outside (default for line, point, "
                "text; or d-text-outside): signs reversed; then + text-dx/dy (property text)",
                "alignment class: the text extends away from the edge it is anchored to: inside-top/outside-bottom => d-text-top, inside-bottom/outside-top => d-text-bottom, likewise left/right; "
@@ -68,15 +69,101 @@ def templates(tier, seed):
         for loc in ("c", "tl", "b"):
             for n in (1, 2):
                 tds.append(dict(fam="content", kind=k, loc=loc, mode="default", off="sym", dxy="none", vert=False, lines=n, carrier="content"))
+    PRES = ["alignment-baseline=middle", "font-family=monospace", "font-size=3", "font-size-adjust=0.5", "font-stretch=condensed", "font-style=italic", "font-variant=small-caps",
+            "font-weight=bold", "text-decoration=underline", "text-rendering=optimizeSpeed", "text-anchor=end", "textLength=20", "lengthAdjust=spacing", "word-spacing=2",
+            "letter-spacing=1", "writing-mode=vertical-lr", "unicode-bidi=embed", "text-style=fill:blue"]
+    for k in ("rect", "line", "text"):
+        for pa in PRES:
+            for vert in (False, True):
+                for lines in (1, 2):
+                    tds.append(dict(fam="attrs", kind=k, pa=pa, vert=vert, lines=lines))
+    for k in ("rect", "circle", "text"):
+        for vert in (False, True):
+            tds.append(dict(fam="attrs", kind=k, pa="+".join(PRES[:6]), vert=vert, lines=1))
+    for ref in ("@tl", "@t", "@tr", "@r", "@br", "@b", "@bl", "@l", "@c", "@t:25%", "@b:3", "@l:25%", "@r:3", "@l:75%", "@r:10%", "|h", "|H", "|v", "|V"):
+        for gap in ("", " 2"):
+            for mode in ("default", "inside"):
+                tds.append(dict(fam="textref", ref=ref, gap=gap, mode=mode))
     return tds
+
+
+def build_attrs(td, wrong):
+    kind, vert, n = td["kind"], td["vert"], td["lines"]
+    sm, vars_, vbox, visible = shape_markup(kind, 0)
+    pas = [p.split("=", 1) for p in td["pa"].split("+")]
+    extra = "".join(f' {a}="{v}"' for a, v in pas) + ' stroke-width="3" opacity="0.5" data-keep="yes"'
+    if vert:
+        extra += ' class="d-text-vertical d-red"'
+    else:
+        extra += ' class="d-red"'
+    txt = "\\n".join(["one", "two", "three"][:n])
+    doc = "<svg>" + sm.replace("{T}", f'{extra} text="{txt}"/>') + "</svg>"
+
+    def check(r):
+        if r.status != "ok":
+            return [Obl("transform-ok", FAIL, ground=True, note=r.docs[0]["msg"][:200])]
+        o = Out(r.output)
+        texts = o.by_tag("text")
+        if len(texts) != 1:
+            return [Obl("one-text-element", FAIL, ground=True, note=f"{len(texts)} text elements")]
+        t = texts[0]
+        obls = []
+        sh = o.by_id("s") if kind != "text" else None
+        for a, v in pas:
+            on_text = "style" if a == "text-style" else a
+            want = "wrong" if wrong else v
+            obls.append(Obl(f"{a}-reaches-the-text-element", PASS if t.get(on_text) == want else FAIL, ground=True, note=f"{t.get(on_text)!r} expected {v!r}"))
+            if sh is not None:
+                obls.append(Obl(f"{a}-leaves-the-shape", PASS if sh.get(a) is None else FAIL, ground=True, note=str(sh.get(a))))
+        if vert and not any(a == "writing-mode" for a, _ in pas):
+            obls.append(Obl("vertical-default-writing-mode", PASS if t.get("writing-mode") == "tb" else FAIL, ground=True, note=str(t.get("writing-mode"))))
+        if sh is not None:
+            for a, v in (("stroke-width", "3"), ("opacity", "0.5"), ("data-keep", "yes")):
+                obls.append(Obl(f"shape-keeps-{a}", PASS if sh.get(a) == v else FAIL, ground=True, note=str(sh.get(a))))
+                obls.append(Obl(f"text-does-not-take-{a}", PASS if t.get(a) is None else FAIL, ground=True, note=str(t.get(a))))
+        return obls
+    return Template(f"attrs/{kind}/{td['pa'][:40]}/{'v' if vert else 'h'}/{n}", doc, list(vars_), check, family="attrs", role=f"C19/attrs/{kind}", cap=2)
+
+
+def build_textref(td, wrong):
+    """a <text> element positioned at a location of another element takes that location as its default text-loc
+    (CHANGELOG 'automatic text-loc anchoring depending on the relative position'): compared with the explicit spelling"""
+    from vlib.twin import compare_outputs
+    ref, gap, mode = td["ref"], td["gap"], td["mode"]
+    vars_ = [(3, *P), (4, *P), (20, *S), (10, *S)]
+    z = '<rect id="z" xy="[[0]] [[1]]" wh="[[2]] [[3]]"/>'
+    key = ref.lstrip("@|").split(":")[0]
+    loc = {"h": "r", "H": "l", "v": "b", "V": "t"}.get(key, key)
+    if wrong:
+        loc = {"r": "l", "l": "r", "t": "b", "b": "t", "c": "t"}.get(loc, "c")
+    cls = ' class="d-text-inside"' if mode == "inside" else ""
+    if ref.startswith("|") or gap == "":
+        xy = f"#z{ref}{gap}"
+    else:
+        xy = f"#z{ref}{gap} 1"
+    d0 = f'<svg>{z}<text xy="{xy}"{cls} text="hi"/></svg>'
+    d1 = f'<svg>{z}<text xy="{xy}"{cls} text-loc="{loc}" text="hi"/></svg>'
+
+    def check(r):
+        if r.docs[1]["status"] != "ok":
+            return [Obl("explicit-spelling-ok", PASS, ground=True, note=r.docs[1]["msg"][:100])]
+        if r.docs[0]["status"] != "ok":
+            return [Obl("transform-ok", FAIL, ground=True, note=r.docs[0]["msg"][:200])]
+        return compare_outputs(Out(r.docs[0]["output"]), Out(r.docs[1]["output"]))
+    return Template(f"textref/{ref}/{gap.strip()}/{mode}", [d0, d1], vars_, check, family="textref", role="C19/textref", cap=4)
 
 
 def twins(tier, seed):
     return [dict(fam="place", kind="rect", loc="tl", mode="default", off="sym", dxy="dx+dy", vert=False, lines=1, carrier="attr"),
-            dict(fam="multiline", kind="line", loc="b", mode="default", off="default", dxy="none", vert=False, lines=3, carrier="attr", lsp="sym")]
+            dict(fam="multiline", kind="line", loc="b", mode="default", off="default", dxy="none", vert=False, lines=3, carrier="attr", lsp="sym"),
+            dict(fam="attrs", kind="rect", pa="font-size=3", vert=False, lines=1), dict(fam="textref", ref="@r:3", gap="", mode="default")]
 
 
 def build(td, wrong=False):
+    if td["fam"] == "attrs":
+        return build_attrs(td, wrong)
+    if td["fam"] == "textref":
+        return build_textref(td, wrong)
     kind = td["kind"]
     sm, vars_, vbox, visible = shape_markup(kind, 0)
     vars_ = list(vars_)
